@@ -616,11 +616,16 @@ fn twin_check<M: Machine>(fw: &FWorld<M>, slot: u16, s: &Slot<M>, twin: &<M::Twi
     }
     // sample_sem = G * se(ln x)  resp.  H^2 * se(1/x)
     if let (Some(e), Some(et)) = (getf(&o, What::Sem(0)), getf(&ot, What::Sem(0))) {
+        // the documented transform, evaluated in the element type: H^2 is formed first, so for
+        // H above sqrt(MAX) it overflows to inf exactly as the documented formula does
         let jac = match tr {
             Transform::Ln => m,
-            _ => m * m,
+            _ => to_f(m * m),
         };
-        let want = jac * et;
+        let want = to_f(jac * et);
+        if want.to_bits() == e.to_bits() {
+            // includes inf == inf at the edge of the range
+        } else
         if want.is_finite() && et.is_finite() && !at_edge(want) {
             let tol = want.abs() * (2.0 * rel(base, mt) + 16.0 * u) + f64::MIN_POSITIVE;
             let d = (e - want).abs();
